@@ -256,9 +256,9 @@ func openSocketPeer(ctx context.Context, n *netceptor.Netceptor, transport strin
 		}
 		var c net.Conn
 		if transport == "tls" {
-			c, err = tls.DialWithDialer(&net.Dialer{Timeout: time.Second}, "tcp", li.GetAddr(), &tls.Config{InsecureSkipVerify: true}) //nolint:gosec
+			c, err = tls.DialWithDialer(&net.Dialer{Timeout: 5 * time.Second}, "tcp", li.GetAddr(), &tls.Config{InsecureSkipVerify: true}) //nolint:gosec
 		} else {
-			c, err = net.DialTimeout("tcp", li.GetAddr(), time.Second)
+			c, err = net.DialTimeout("tcp", li.GetAddr(), 5*time.Second)
 		}
 		if err != nil {
 			return nil, err
@@ -307,7 +307,7 @@ func openSocketPeer(ctx context.Context, n *netceptor.Netceptor, transport strin
 		if err != nil {
 			return nil, err
 		}
-		d := websocket.Dialer{HandshakeTimeout: 2 * time.Second, TLSClientConfig: &tls.Config{InsecureSkipVerify: true}} //nolint:gosec
+		d := websocket.Dialer{HandshakeTimeout: 6 * time.Second, TLSClientConfig: &tls.Config{InsecureSkipVerify: true}} //nolint:gosec
 		c, resp, err := d.Dial(scheme+li.Addr().String()+"/", nil)
 		if err != nil {
 			return nil, err
@@ -394,7 +394,7 @@ func openSocketPeer(ctx context.Context, n *netceptor.Netceptor, transport strin
 			if err != nil {
 				return nil, err
 			}
-			wd := websocket.Dialer{HandshakeTimeout: 2 * time.Second}
+			wd := websocket.Dialer{HandshakeTimeout: 6 * time.Second}
 			c, resp, err := wd.DialContext(ctx, url, nil)
 			if err != nil {
 				return nil, err
@@ -411,7 +411,7 @@ func waitReady(p *sockPeer) error {
 	select {
 	case <-p.ready:
 		return nil
-	case <-time.After(3 * time.Second):
-		return fmt.Errorf("the node did not connect to the harness's listener within 3 s")
+	case <-time.After(6 * time.Second):
+		return fmt.Errorf("the node did not connect to the harness's listener within 6 s")
 	}
 }
